@@ -195,6 +195,9 @@ def rule_N(ctx):
         raise shape_error('shortest_distance: target branch not found', f.loc())
 
 
+ALL_PATHS = []
+
+
 def relax_paths(ctx):
     """paths through one iteration of the neighbour loop that update something; shared with C07.N"""
     f, body, wl, fl = _forward(ctx)
@@ -225,12 +228,18 @@ def relax_paths(ctx):
     st2 = falls[0].state.fork()
     st2.events = []
     st2.conds = []
+    P_ = '%s.pop_smallest()' % qname
+    for k_, v_ in list(st2.env.items()):
+        if isinstance(v_, Rat) and any(P_ in a_ for a_ in v_.atoms()):
+            st2.env[k_] = v_.rename_atoms(P_, 'pere')          # locals that alias fields of the popped node (reached = current.poids)
     st2.env[pname] = Rat.atom('pere')
     ev_ = fl.target.id
     st2.env[ev_] = Rat.atom(ev_)
     E = 'self.EDGES[%s]' % ev_
     res = []
+    ALL_PATHS[:] = []
     for o in w.run(fl.body, st2):
+        ALL_PATHS.append(o)
         upd = {}
         for e in o.state.events:
             if e.kind == 'store' and e.index in ('poids', 'antecedent', 'antecedent_edge'):
@@ -291,18 +300,35 @@ def rule_R(ctx):
     if pname is None:
         return
     P = '%s.pop_smallest()' % qname
-    # stop test on break paths: label > cut (strict) or id == target
+    # stop test, decided on the case domain (label vs cut) x (popped node is the target?) - however the test is written or split
     def is_cut(c):
         return c.kind == 'cmp' and isinstance(c.a, Rat) and isinstance(c.b, Rat) and \
             {c.a.single_atom(), c.b.single_atom()} == {P + '.poids', cut}
+
+    def is_tgt(c):
+        return c.kind == 'cmp' and c.op in ('==', '!=') and isinstance(c.a, Rat) and isinstance(c.b, Rat) and {vr(c.a), vr(c.b)} == {P + '.id', tgt}
     bad_stop = []
-    for o in brks:
-        for c, _ in o.state.conds:
-            for cj in (c.items if c.kind == 'or' else [c]):
-                if is_cut(cj):
-                    # break iff cut < label
-                    if not (cj.op == '<' and cj.a.single_atom() == cut):
-                        bad_stop.append(repr(cj))
+    bad_tstop = []
+    for rel in ('<', '==', '>'):
+        for is_target in (False, True):
+            def orc(c, rel=rel, is_target=is_target):
+                if is_cut(c):
+                    lab, ct = (0, {'<': 1, '==': 0, '>': -1}[rel])
+                    u, v = (lab, ct) if c.a.single_atom() == P + '.poids' else (ct, lab)
+                    return {'<': u < v, '<=': u <= v, '==': u == v, '!=': u != v}[c.op]
+                if is_tgt(c):
+                    return is_target if c.op == '==' else not is_target
+                return None
+            kinds = {o.kind for o in outs if all(cond_eval(c, orc) is not False for c, _ in o.state.conds)}
+            if len(kinds) != 1:
+                raise shape_error('run_routing_forward: the stop test depends on more than (label vs cut, popped node == target)', f.loc(wl))
+            stops = kinds == {'break'}
+            if rel != '>' and not is_target and stops:
+                bad_stop.append({'label vs cut': rel, 'popped node is the target': False, 'search stops': True})
+            if rel == '>' and not stops:
+                bad_stop.append({'label vs cut': rel, 'popped node is the target': is_target, 'search stops': False})
+            if rel != '>' and is_target and not stops:
+                bad_tstop.append({'label vs cut': rel, 'popped node is the target': True, 'search stops': False})
     # table write guarded by label <= cut
     n_store = 0
     for o in falls:
@@ -325,12 +351,10 @@ def rule_R(ctx):
                       node=e.node, key='table-guard')
     if n_store == 0:
         raise shape_error('run_routing_forward never writes the distance table', f.loc(wl))
-    ctx.check(not bad_stop, 'C06.C', f, 'the search stops at the first popped node whose label exceeds the cut (strictly)',
-              witness={'stop tests': bad_stop}, node=wl, key='stop')
-    tstop = any(any(cj.kind == 'cmp' and cj.op == '==' and {vr(cj.a), vr(cj.b)} == {P + '.id', tgt}
-                    for cj in (c.items if c.kind == 'or' else [c])) for o in brks for c, _ in o.state.conds)
-    ctx.check(tstop, 'C06.C', f, 'the search may stop when the target itself is popped (its label is final)',
-              witness={'break conditions': [[repr(c) for c, _ in o.state.conds] for o in brks]}, node=wl, key='target-stop')
+    ctx.check(not bad_stop, 'C06.C', f, 'the search stops at a popped node other than the target exactly when its label exceeds the cut (strictly)',
+              witness={'cases': bad_stop, 'why': 'stopping at label == cut drops the pairs whose distance equals the cut-off; not stopping beyond it records pairs beyond it'}, node=wl, key='stop')
+    ctx.check(not bad_tstop, 'C06.C', f, 'the search may stop when the target itself is popped (its label is final)',
+              witness={'cases': bad_tstop}, node=wl, key='target-stop')
     # settled flag and out-edges of the popped node
     fo = falls[0]
     vis = [e for e in fo.state.events if e.kind == 'store' and e.name == P + '.visite']
@@ -431,6 +455,64 @@ def rule_R(ctx):
     if n_upd == 0:
         raise shape_error('run_routing_forward: no relaxation path found', f.loc(fl))
     ctx.extra['relaxation_paths'] = n_upd
+    # ---- when is a neighbour NOT relaxed?  case domain: settled? x (unreached | candidate <,==,> label) x (candidate <,==,> cut) --------------
+    ends = (E + '.target', E + '.source')
+    cand = Rat.atom('pere.poids') + Rat.atom(E + '.weight')
+
+    def is_end_poids(v):
+        return isinstance(v, Rat) and v.single_atom() in tuple(x + '.poids' for x in ends)
+    missed = None
+    for settled in (False, True):
+        for lab in ('unreached', '<', '==', '>'):          # candidate (op) current label
+            for rc in ('<', '==', '>'):                    # candidate (op) cut
+                def orc(c, settled=settled, lab=lab, rc=rc):
+                    if c.kind == 'truth' and isinstance(c.a, Rat) and (c.a.single_atom() or '') in tuple(x + '.visite' for x in ends):
+                        return settled
+                    if c.kind != 'cmp' or not (isinstance(c.a, Rat) and isinstance(c.b, Rat)):
+                        return None
+                    for u, v, flip in ((c.a, c.b, False), (c.b, c.a, True)):
+                        val = None
+                        if is_end_poids(u) and v.isconst():                       # label vs constant (sentinel -1, or 0)
+                            k = v.constval()
+                            if lab == 'unreached':
+                                val = (-1 > k) - (-1 < k)
+                            elif k <= 0:
+                                val = 1 if k < 0 else None                         # a reached label is >= 0: undecided against 0
+                            if k == 0 and lab != 'unreached':
+                                return None
+                        elif w.rel.is_zero(u - cand) and is_end_poids(v):          # candidate vs label
+                            if lab == 'unreached':
+                                val = 1                                            # any candidate (>= 0) is above the sentinel -1
+                            else:
+                                val = {'<': -1, '==': 0, '>': 1}[lab]
+                        elif w.rel.is_zero(u - cand) and v.single_atom() == cut:   # candidate vs cut
+                            val = {'<': -1, '==': 0, '>': 1}[rc]
+                        if val is not None:
+                            if flip:
+                                val = -val
+                            return {'<': val < 0, '<=': val <= 0, '==': val == 0, '!=': val != 0}[c.op]
+                    return None
+                must = (not settled) and lab in ('unreached', '<') and rc in ('<', '==')
+                if not must:
+                    continue
+                for o in ALL_PATHS:
+                    vals = [cond_eval(c, orc) for c, _ in o.state.conds]
+                    if any(v is False for v in vals):
+                        continue
+                    updates = any(e.kind == 'store' and e.index == 'poids' for e in o.state.events)
+                    if updates:
+                        continue
+                    unknown = [repr(c) for (c, _), v in zip(o.state.conds, vals) if v is None and not
+                               any(x in repr(c) for x in ('== pere', '!= pere', 'pere ==', 'pere !=')) and 'routing_mode' not in repr(c)]
+                    if unknown:
+                        raise shape_error('run_routing_forward: a neighbour is skipped under a condition the rule does not understand: %s' % unknown[:2], f.loc(fl))
+                    if missed is None:
+                        missed = {'neighbour settled': settled, 'candidate vs its label': lab, 'candidate vs cut': rc,
+                                  'path that leaves the neighbour unrelaxed': [repr(c) for c, _ in o.state.conds],
+                                  'why': 'an unsettled neighbour whose candidate distance improves its label and does not exceed the cut-off must be labelled: '
+                                         'otherwise pairs at distance <= cut (e.g. exactly equal to it) are reported unreachable'}
+    ctx.check(missed is None, 'C06.R', f, 'every unsettled neighbour whose candidate (label of popped node + edge weight) improves its label and is <= cut is relaxed',
+              witness=missed, node=fl, key='no-skip')
 
 
 def vr(v):
